@@ -37,6 +37,14 @@ Classes of inputs added by the audit after the third round of seeded changes (ev
   arrays changed in place); immediately afterwards every OTHER series the database holds, and in later requests every other series
   (cached, uncached, never read), must be what the file holds.  The changed object itself is exempt from the value clause (not
   from the name clause) for as long as the database hands out that very object; the model sees a `touch` as the `get` it starts with;
+* the registry changes between retrievals (fifth round): ops `rename` (a series gets another registered name: a new one, the name
+  another series had on the file, a name of the other file, a case variant; two series exchange their names) and `clear` (series
+  are removed, later ones move up) on one or two files under three cache states; after every change each registered series is asked
+  for by index (from the start / the end, get / geta / getm / getl / getda / getd, stored or not), by its current name / full key and
+  by '*', and everything the database holds is audited: the series at index i is the one registered at position i of
+  `register_keys`, carries the name it is registered under NOW and the arrays the file holds for the column it was registered from.
+  The harness follows the registry itself (a disagreement about the registered keys is reported as a broken tie, not as a violation);
+  these histories are outside the model `rb.run` and are decided by the clauses alone;
 * crashes: a load of a readable file or a request for registered series that raises is a failing clause; an exception anywhere in
   the evaluation of a history is reported with the history as failing input.
 """
@@ -86,7 +94,12 @@ RULE = ("files: per format 4 (quick) / 6 (thorough) synthesised files with 1-5 s
         "(set_dtg_ref set+moved / set+moved to the first sample, t += 64 in place, both arrays overwritten, x negated), then audit every "
         "other series held by the database: 14% of the ops of the random histories, one in every multi-file history, and per format "
         "8 (quick) histories + one per feature file in which >= 2 series are read in ONE call (getm/getl/getda/getd by names, indices or "
-        "'*', or eager load), one is touched, the others are asked for one by one / by '*' / by index, a second one is touched")
+        "'*', or eager load), one is touched, the others are asked for one by one / by '*' / by index, a second one is touched; "
+        "fifth round: per format 4 (quick) / 16 (thorough) histories + one per feature file in which the registry changes between "
+        "retrievals: 2-3 rounds of (rename of 1-2 series, mostly not the last registered / two series exchanging names / clear of 1-2 "
+        "series) each followed by get/geta(ind=i) for every i (ascending, descending or shuffled, 20% counted from the end, store 60%), "
+        "one getm/getl/getda/getd over a permutation of all indices, three requests by current name or full key, '*' and a second pass "
+        "over the indices; half of them on two files (the other of any format); cache state fresh / eager / partly read")
 
 TDA_KEY_HEAD = """** Info about series written by SIMO-S2XMOD
 ** 26-NOV-2016 20:59
@@ -692,16 +705,18 @@ def stored(spec, j):
 # ----------------------------------------------------------------------------------------------------------
 # histories (symbolic: files by position in the history's file list, patterns resolved against the actual paths)
 # ----------------------------------------------------------------------------------------------------------
-def resolve(pat, specs, paths):
+def resolve(pat, specs, paths, cur=None):
+    """`cur`: (file, column) -> the name the series is registered under NOW (differs from the name on the file after a rename)"""
     kind = pat[0]
     if kind == "lit":
         return pat[1]
-    if kind == "key":
-        return paths[pat[1]] + os.path.sep + specs[pat[1]]["names"][pat[2]]
+    if kind in ("key", "rel"):
+        nm = (cur or {}).get((pat[1], pat[2]), specs[pat[1]]["names"][pat[2]])
+        if kind == "key":
+            return paths[pat[1]] + os.path.sep + nm
+        return os.path.basename(paths[pat[1]]) + os.path.sep + nm                                 # <file name>/<series name>
     if kind == "file":
         return os.path.basename(paths[pat[1]]) + os.path.sep + "*"
-    if kind == "rel":
-        return os.path.basename(paths[pat[1]]) + os.path.sep + specs[pat[1]]["names"][pat[2]]      # <file name>/<series name>
     raise ValueError(pat)
 
 
@@ -914,6 +929,101 @@ def touch_history(spec, rng):
         ops.append(["touch", ["name", ["key", 0, first[1]]], rng.random() < 0.7, dict(kind=kinds[1])])
     ops.append(["getl", ["ind", list(range(k))[::-1]], True, False])
     ops.append(["getm", ["names", [["key", 0, j] for j in order]], rng.random() < 0.5, True])
+    return ops
+
+
+RENAME_POOL = ["zz", "x_lf", "renamed 1", "Time", "END", "R [kN]", "Q[m/s]", "b", "a", "ab", "Fx", "fx", "time", "0"]
+REGISTRY_OPS = ("rename", "clear")
+
+
+def has_registry_op(ops):
+    return any(op[0] in REGISTRY_OPS for op in ops)
+
+
+def registry_history(specs, rng, quick=True):
+    """the registry CHANGES between retrievals: series of the 1-2 files are renamed (also: two series exchange their names, a series
+    takes the name another one had on the file, a name of the other file, a case variant of its own name) or removed from the database,
+    under three cache states (nothing read / everything read / some read); after every change every registered series is asked for by
+    index (from the start / from the end, get / geta / getm / getl / getda, stored or not), by its current name and by '*':
+    the series at index i is the one registered at position i of `register_keys`, under its current name, with what the file holds
+    for the column it was registered from."""
+    nf = len(specs)
+    cur = {(fi, j): nm for fi, sp in enumerate(specs) for j, nm in enumerate(sp["names"])}
+    reg = [(fi, j) for fi in range(nf) for j in range(len(specs[fi]["names"]))]
+    state = rng.choice(["fresh", "eager", "partial", "partial"])
+    if nf > 1 and rng.random() < 0.5:
+        ops = [["load", list(range(nf)), state == "eager", dict(form="list")]]
+    else:
+        ops = [["load", fi, state == "eager"] for fi in range(nf)]
+    if state == "partial":
+        ops.append(["getm", ["ind", sorted(rng.sample(range(len(reg)), rng.randint(1, max(1, len(reg) - 1))))], True, True])
+
+    def taken(fi):
+        return set(cur[fj] for fj in reg if fj[0] == fi)
+
+    def fresh_name(fi, j):
+        old = cur[(fi, j)]
+        cands = list(RENAME_POOL) + [old.swapcase(), old + "_lf", old[:max(1, len(old) // 2)], specs[fi]["names"][(j + 1) % len(specs[fi]["names"])]]
+        cands += [cur[fj] for fj in reg if fj[0] != fi][:2]                    # a name registered for the other file
+        cands = [c for c in cands if c and c not in taken(fi) and c != old and not any(ch in c for ch in "*?()^\\")]
+        return rng.choice(cands)
+
+    def target(fj):
+        # by full key (always unique) or by the bare current name where that is unique and free of pattern characters
+        nm = cur[fj]
+        if rng.random() < 0.4 and sum(1 for q in reg if cur[q] == nm) == 1 and not any(ch in nm for ch in "*?[]()^"):
+            return ["lit", nm]
+        return ["key", fj[0], fj[1]]
+
+    def rename(fj, new):
+        ops.append(["rename", target(fj), new])
+        cur[fj] = new
+
+    def sweep():
+        n = len(reg)
+        idx = list(range(n))
+        r = rng.random()
+        if r < 0.3:
+            idx = idx[::-1]
+        elif r < 0.6:
+            rng.shuffle(idx)
+        for i in idx:
+            ops.append([rng.choice(["get", "geta"]), ["ind", i - n if rng.random() < 0.2 else i], rng.random() < 0.6])
+        perm = list(range(n))
+        rng.shuffle(perm)
+        api = rng.choice(["getm", "getl", "getda", "getd"])
+        ops.append([api, ["ind", perm], rng.random() < 0.5, FORCED_FULL.get(api, rng.random() < 0.5)])
+        for fj in rng.sample(reg, min(len(reg), 3)):
+            ops.append([rng.choice(["get", "geta"]), ["name", target(fj)], rng.random() < 0.5])
+        if rng.random() < 0.5:
+            ops.append(["getm", ["names", None], rng.random() < 0.3, True])
+        for i in (idx[::-1] if rng.random() < 0.5 else idx)[:n if rng.random() < 0.5 else 2]:       # (now mostly cached)
+            ops.append([rng.choice(["get", "geta"]), ["ind", i], rng.random() < 0.6])
+
+    for rnd in range(2 if quick else 3):
+        r = rng.random()
+        notlast = [fj for fj in reg if fj != reg[-1]] or list(reg)
+        pairs = [(a, b) for a in reg for b in reg if a[0] == b[0] and a < b]
+        if r < 0.2 and pairs:
+            # two series of one file exchange their names
+            a, b = rng.choice(pairs)
+            na, nb = cur[a], cur[b]
+            tmp = "tmp_swap"
+            rename(a, tmp)
+            if rng.random() < 0.5:
+                ops.append([rng.choice(["get", "geta"]), ["ind", reg.index(b)], rng.random() < 0.6])
+            rename(b, na)
+            rename(a, nb)
+        elif r < 0.35 and len(reg) > 2:
+            gone = rng.sample(reg, 1 if len(reg) < 4 or rng.random() < 0.6 else 2)
+            ops.append(["clear", [target(fj) for fj in gone]])
+            for fj in gone:
+                reg.remove(fj)
+        else:
+            # (mostly a series that is not the last one registered: the ones after it keep their indices)
+            for fj in rng.sample(notlast, 1 if rng.random() < 0.7 else min(2, len(notlast))):
+                rename(fj, fresh_name(*fj))
+        sweep()
     return ops
 
 
@@ -1164,16 +1274,16 @@ def glob_tail(stem):
     return "?" if len(stem) % 2 else "[%s]" % stem[-1]
 
 
-def spell_sel(op, specs, paths):
+def spell_sel(op, specs, paths, cur=None):
     """(names, ind) in the spelling the op asks for"""
     sel, st = op[1], op_style(op)
     form = st.get("form", "list")
     if sel[0] in ("name", "names"):
         if sel[0] == "name":
-            return resolve(sel[1], specs, paths), None
+            return resolve(sel[1], specs, paths, cur), None
         if sel[1] is None:
             return None, None
-        names = [resolve(q, specs, paths) for q in sel[1]]
+        names = [resolve(q, specs, paths, cur) for q in sel[1]]
         return (tuple(names) if form == "tuple" else names[0] if form == "str" and len(names) == 1 else names), None
     if isinstance(sel[1], int):
         return None, sel[1]
@@ -1244,8 +1354,14 @@ def call(state, op, specs, paths):
             else:
                 db.load(arg, read=op[2])
             return "done"
+        if op[0] == "rename":
+            db.rename(resolve(op[1], specs, paths, state.get("cur")), op[2])
+            return "done"
+        if op[0] == "clear":
+            db.clear(names=[resolve(q, specs, paths, state.get("cur")) for q in op[1]], display=False)
+            return "done"
         api, store = op[0], op_store(op)
-        names, ind = spell_sel(op, specs, paths)
+        names, ind = spell_sel(op, specs, paths, state.get("cur"))
         skw = {} if (st.get("dflt") and store) else dict(store=store)
 
         def arr(ts):
@@ -1311,11 +1427,15 @@ def call(state, op, specs, paths):
         return err_enum(e)
 
 
-def simple_expectation(op, specs, paths, loaded):
+def simple_expectation(op, specs, paths, loaded, reg=None, cur=None):
     """keys a request selects BY CONSTRUCTION (no wildcard semantics needed): exact names that occur in exactly one loaded file,
     full keys, '*' alone / names=None, register indices (from the start or from the end).  None when the request is not of that
-    simple kind."""
-    allkeys = [(fi, j) for fi in loaded for j in range(len(specs[fi]["names"]))]
+    simple kind.  `reg`: the (file, column) pairs registered now, in register order (default: every series of the loaded files);
+    `cur`: (file, column) -> the name it is registered under now (default: the name on the file)."""
+    allkeys = list(reg) if reg is not None else [(fi, j) for fi in loaded for j in range(len(specs[fi]["names"]))]
+
+    def name_of(fi, j):
+        return (cur or {}).get((fi, j), specs[fi]["names"][j])
     sel = op[1]
     if sel[0] == "ind":
         idx = [sel[1]] if isinstance(sel[1], int) else list(sel[1])
@@ -1330,18 +1450,18 @@ def simple_expectation(op, specs, paths, loaded):
             want = []
             for p in pats:
                 if p[0] == "key":
-                    if p[1] not in loaded:
+                    if p[1] not in loaded or (p[1], p[2]) not in allkeys:
                         return None
                     want.append((p[1], p[2]))
-                elif p[0] == "rel" and not any(ch in specs[p[1]]["names"][p[2]] for ch in "*?[]()^"):
+                elif p[0] == "rel" and not any(ch in name_of(p[1], p[2]) for ch in "*?[]()^"):
                     base = os.path.basename(paths[p[1]])
                     hits = [(fi, j) for (fi, j) in allkeys if os.path.basename(paths[fi]) == base
-                            and specs[fi]["names"][j] == specs[p[1]]["names"][p[2]]]
+                            and name_of(fi, j) == name_of(p[1], p[2])]
                     if len(hits) != 1 or p[1] not in loaded:
                         return None
                     want += hits
                 elif p[0] == "lit" and not any(ch in p[1] for ch in "*?[]()^"):
-                    hits = [(fi, j) for (fi, j) in allkeys if specs[fi]["names"][j] == p[1]]
+                    hits = [(fi, j) for (fi, j) in allkeys if name_of(fi, j) == p[1]]
                     if len(hits) != 1:       # absent, or present in several loaded files: not a simple request
                         return None
                     want += hits
@@ -1364,9 +1484,14 @@ def execute(specs, paths, ops, model=None, chk=None, inp=None, verbose=False, nr
     `shadow`: ops for a second database of the same process on the same files, run alternately with `ops` (oracles only).
     Returns (disagreements, failures) as lists of dicts; when `chk` is given they are recorded there as well."""
     from qats import TsDB
-    state, state2 = dict(db=TsDB()), dict(db=TsDB())
+    def new_state():
+        # reg: the (file, column) pairs registered in this database, in register order; cur: the name each is registered under now;
+        # keymap: full key -> (file, column) (all three follow load / rename / clear)
+        return dict(db=TsDB(), reg=[], cur={(fi, j): nm for fi, sp in enumerate(specs) for j, nm in enumerate(sp["names"])},
+                    keymap={paths[fi] + os.path.sep + nm: (fi, j) for fi, sp in enumerate(specs) for j, nm in enumerate(sp["names"])})
+    state, state2 = new_state(), new_state()
     dis, fails = [], []
-    keymap = {paths[fi] + os.path.sep + nm: (fi, j) for fi, sp in enumerate(specs) for j, nm in enumerate(sp["names"])}
+    keymap = state["keymap"]
     loaded, loaded2 = [], []
     nrec = nrec or [1] * len(ops)
 
@@ -1388,6 +1513,8 @@ def execute(specs, paths, ops, model=None, chk=None, inp=None, verbose=False, nr
         k, nm, t, x = item
         sp = specs[fi]
         wn, wt, wx = stored(sp, j)
+        if st8 is not None:
+            wn = st8["cur"][(fi, j)]                  # the name it is registered under now
         tol = tol_of(sp["fmt"])
         if chk is not None:
             chk.count("oracle:values")
@@ -1417,6 +1544,7 @@ def execute(specs, paths, ops, model=None, chk=None, inp=None, verbose=False, nr
                 return                              # (the refusal itself belongs to the registry property; the model tie reports it)
             for fi in good:
                 ldd.append(fi)
+                st8["reg"] += [(fi, j) for j in range(len(specs[fi]["names"]))]
                 # the names a file is asked for are the names stored in it: all of them registered, in file order, nothing else
                 pre = paths[fi] + os.path.sep
                 regs = [k[len(pre):] for k in db.register_keys if k.startswith(pre)]
@@ -1434,7 +1562,11 @@ def execute(specs, paths, ops, model=None, chk=None, inp=None, verbose=False, nr
                         else:
                             check_series(upto, (fi, j), (None, ts.name, np.array(ts.t), np.array(ts.x)), "eager load" + who, st8)
             return
-        exp = simple_expectation(op, specs, paths, ldd)
+        if op[0] in ("rename", "clear"):
+            registry_op(st8, op, res, ldd, upto, who)
+            return
+        keymap = st8["keymap"]
+        exp = simple_expectation(op, specs, paths, ldd, st8["reg"], st8["cur"])
         if isinstance(res, list):
             if exp is not None:
                 if chk is not None:
@@ -1452,7 +1584,7 @@ def execute(specs, paths, ops, model=None, chk=None, inp=None, verbose=False, nr
                     else:
                         fail("container keys are registered keys", upto, "one of the registered keys", it[0], clause="key")
         elif res != "done":
-            if op[0] == "getdf" and any(tainted(st8, k) for k in keymap):
+            if op[0] == "getdf" and any(tainted(st8, k) for k in st8["keymap"]):
                 return                  # (a common time array is to_dataframe's own requirement; the caller has changed one)
             if exp is not None and (op[0] not in ("get", "geta", "touch") or len(exp) == 1):
                 fail("a request for registered series succeeds", upto, [specs[fi]["names"][j] for fi, j in exp], res, clause="error",
@@ -1461,12 +1593,58 @@ def execute(specs, paths, ops, model=None, chk=None, inp=None, verbose=False, nr
                 # a request by patterns: whatever the patterns select (the database's own listing says which keys), handing those
                 # series out must not fail
                 try:
-                    sel = db.list(names=[resolve(q, specs, paths) for q in op[1][1]])
+                    sel = db.list(names=[resolve(q, specs, paths, st8["cur"]) for q in op[1][1]])
                 except Exception:
                     sel = []
                 if sel and all(k in keymap for k in sel):
                     fail("a request for registered series succeeds", upto, [k.split(os.path.sep)[-1] for k in sel], res,
                          clause="error", how="by pattern" + who)
+
+    def audit(st8, upto, how):
+        """every series the database holds (other than objects the caller has changed) is what the file holds, under the name it
+        is registered under now"""
+        db = st8["db"]
+        for k in db.register_keys:
+            held = db.register.get(k)
+            if held is not None and k in st8["keymap"] and not tainted(st8, k):
+                check_series(upto, st8["keymap"][k], (None, held.name, np.array(held.t), np.array(held.x)), how, st8)
+
+    def registry_op(st8, op, res, ldd, upto, who):
+        """rename / clear: the registry changes between retrievals.  The harness follows it (which series is registered under which
+        name at which index); the clauses are evaluated by the retrievals that come afterwards and by the audit of what is held."""
+        if chk is not None:
+            chk.count("oracle:registry-op")
+        if res != "done":
+            return              # refused (whether that is right belongs to the registry property): nothing has changed
+        if op[0] == "rename":
+            exp = simple_expectation(["get", ["name", op[1]]], specs, paths, ldd, st8["reg"], st8["cur"])
+            if exp is None or len(exp) != 1:
+                raise ValueError("rename of something that is not one registered series by construction: %r" % (op,))
+            fi, j = exp[0]
+            pre = paths[fi] + os.path.sep
+            st8["keymap"].pop(pre + st8["cur"][(fi, j)], None)
+            st8["cur"][(fi, j)] = op[2]
+            st8["keymap"][pre + op[2]] = (fi, j)
+        else:
+            exp = simple_expectation(["getm", ["names", op[1]]], specs, paths, ldd, st8["reg"], st8["cur"])
+            if exp is None:
+                raise ValueError("clear of something that is not a set of registered series by construction: %r" % (op,))
+            for fi, j in exp:
+                st8["reg"].remove((fi, j))
+                st8["keymap"].pop(paths[fi] + os.path.sep + st8["cur"][(fi, j)], None)
+        # the keys the database lists now are the ones registered by construction, in register order
+        want = [paths[fi] + os.path.sep + st8["cur"][(fi, j)] for fi, j in st8["reg"]]
+        have = list(st8["db"].register_keys)
+        if have != want:
+            # (which keys the register lists after rename / clear is the registry property's business: here it only means that the
+            # harness no longer knows what is registered where -- a broken tie, not a violation of this property)
+            d = dict(stream="registry", input=dict(inp or {}, first_difference_at_op=upto - 1), model=str(want)[:600], impl=str(have)[:600])
+            dis.append(d)
+            if chk is not None:
+                chk.disagree(d["stream"], d["input"], d["model"], d["impl"])
+            if verbose:
+                print("register keys after", op, "\n  expected:", want, "\n  impl    :", have)
+        audit(st8, upto, "held by the database, after %s%s" % (op[0], who))
 
     def after_touch(st8, op, upto, who):
         """the caller changes the series it was just handed; every OTHER series the database holds is still what the file holds"""
@@ -1478,8 +1656,8 @@ def execute(specs, paths, ops, model=None, chk=None, inp=None, verbose=False, nr
         db = st8["db"]
         for k in db.register_keys:
             held = db.register.get(k)
-            if held is not None and k in keymap and not tainted(st8, k):
-                check_series(upto, keymap[k], (None, held.name, np.array(held.t), np.array(held.x)),
+            if held is not None and k in st8["keymap"] and not tainted(st8, k):
+                check_series(upto, st8["keymap"][k], (None, held.name, np.array(held.t), np.array(held.x)),
                              "held by the database, after the caller changed ANOTHER series it was handed (%s)%s" % (
                                  op_style(op).get("kind", "dtg2"), who), st8)
 
@@ -1682,6 +1860,20 @@ def run(chk):
                 sps = [specs[i] for i in ids]
                 hist.append(("pair", sps, [paths[i] for i in ids], pair_history(sps, rng),
                              dict(shadow=pair_history(sps, rng)) if rng.random() < 0.5 else None))
+        # the registry changes between retrievals (rename / clear): one and two files per database, all formats and spellings
+        for fmt in FORMATS:
+            cands = byfmt[fmt][:nvar]
+            for q in range(4 if chk.quick else 16):
+                ids = [cands[q % len(cands)]]
+                if q % 2:
+                    o = rng.choice(byfmt[rng.choice(FORMATS)][:nvar])
+                    if o not in ids:
+                        ids = ids + [o] if rng.random() < 0.5 else [o] + ids
+                sps = [specs[i] for i in ids]
+                hist.append(("registry", sps, [paths[i] for i in ids], registry_history(sps, rng, chk.quick), None))
+        for i in feature:
+            if len(specs[i]["names"]) > 1 or not chk.quick:
+                hist.append(("feature-registry", [specs[i]], [paths[i]], registry_history([specs[i]], rng, chk.quick), None))
         # corpus entries bring their own file contents: write them
         for n, (kind, sps, pths, ops, meta) in enumerate(hist):
             if pths is None:
@@ -1704,9 +1896,12 @@ def run(chk):
                     hist.append(("session%d" % len(prior), sps, pths, ops, dict(root=sroot, prior=list(prior))))
                     prior.append(dict(specs=sps, ops=ops))
                 fi_next += 6
-        enc = [encode(sps, pths, ops) for (_, sps, pths, ops, _) in hist]
-        outs = drv.run([e[0] for e in enc])
-        for (kind, sps, pths, ops, meta), (_, nrec), reply in zip(hist, enc, outs):
+        # (histories with rename / clear are outside the model `rb.run`: they are evaluated by the clauses of the property alone)
+        enc = [None if has_registry_op(ops) else encode(sps, pths, ops) for (_, sps, pths, ops, _) in hist]
+        replies = iter(drv.run([e[0] for e in enc if e is not None]))
+        outs = [None if e is None else next(replies) for e in enc]
+        for (kind, sps, pths, ops, meta), e, reply in zip(hist, enc, outs):
+            nrec = None if e is None else e[1]
             inp = dict(specs=sps, ops=ops)
             meta = meta or {}
             if "prior" in meta:
@@ -1716,7 +1911,9 @@ def run(chk):
                 inp["shadow"] = meta["shadow"]
             chk.count("rb.run:" + kind)
             model = None
-            if not reply.startswith("ok "):
+            if reply is None:
+                pass
+            elif not reply.startswith("ok "):
                 chk.disagree("rb.run", inp, reply, "(model did not accept the request)")
             else:
                 model = parse_reply(reply)
@@ -1725,6 +1922,12 @@ def run(chk):
             except Exception as e:                    # never an infrastructure error: the history is a failing input
                 chk.fail("every retrieval history on readable files can be evaluated (no internal error)", inp, "no exception",
                          "%s: %s" % (type(e).__name__, str(e)[:300]), clause="crash")
+            if reply is None:
+                for sp in sps:
+                    chk.dist("registry history with " + STYLE[sp["fmt"]])
+                for op in ops:
+                    chk.dist("op:" + op[0])
+                chk.nontriv((tuple(sp["fi"] for sp in sps), repr(ops)))
             if model is None:
                 continue
             for sp in sps:
@@ -1761,9 +1964,10 @@ def replay(rp):
         paths = [write_file(root, sp) for sp in specs]
         model, nrec = None, None
         try:
-            line, nrec = encode(specs, paths, ops)
-            reply = core.Driver().run([line])[0]
-            model = parse_reply(reply) if reply.startswith("ok ") else None
+            if not has_registry_op(ops):
+                line, nrec = encode(specs, paths, ops)
+                reply = core.Driver().run([line])[0]
+                model = parse_reply(reply) if reply.startswith("ok ") else None
         except Exception as e:                     # the oracles do not need the model
             print("(model not available: %s)" % e)
         try:
